@@ -240,11 +240,12 @@ pub trait ElementMut: Element + NodeMut {
     fn set_attribute_node(&self, new_attr: XmlAttr) -> error::Result<Option<XmlAttr>>;
 
     fn remove_attribute_node(&self, old_attr: XmlAttr) -> error::Result<XmlAttr> {
-        if let Some(attr) = self.get_attribute_node(old_attr.name().as_str()) {
-            self.remove_attribute(old_attr.name().as_str())?;
-            Ok(attr)
-        } else {
-            Err(error::DomException::NotFoundErr)?
+        match self.get_attribute_node(old_attr.name().as_str()) {
+            Some(attr) if Rc::ptr_eq(&attr.attribute, &old_attr.attribute) => {
+                self.remove_attribute(old_attr.name().as_str())?;
+                Ok(attr)
+            }
+            _ => Err(error::DomException::NotFoundErr)?,
         }
     }
 
@@ -1203,12 +1204,12 @@ impl NodeMut for XmlDocument {
         new_child: XmlNode,
         ref_child: Option<&XmlNode>,
     ) -> error::Result<XmlNode> {
-        if Some(self.clone()) != new_child.owner_document() {
+        if !same_document(Some(self.clone()), new_child.owner_document()) {
             return Err(error::DomException::WrongDocumentErr)?;
         }
 
         let value = if let Some(r) = ref_child {
-            if Some(self.clone()) != r.owner_document() {
+            if !same_document(Some(self.clone()), r.owner_document()) {
                 return Err(error::DomException::WrongDocumentErr)?;
             }
 
@@ -1232,7 +1233,7 @@ impl NodeMut for XmlDocument {
     }
 
     fn remove_child(&self, old_child: &XmlNode) -> error::Result<XmlNode> {
-        if Some(self.clone()) != old_child.owner_document() {
+        if !same_document(Some(self.clone()), old_child.owner_document()) {
             return Err(error::DomException::WrongDocumentErr)?;
         }
 
@@ -1324,6 +1325,15 @@ impl XmlDocument {
     fn root_element(&self) -> error::Result<XmlElement> {
         let element = self.document.borrow().document_element()?;
         Ok(XmlElement::from(element))
+    }
+}
+
+/// Whether both are one and the same document. Two documents that were read from the same text
+/// are equal, but a node of one does not belong to the other.
+fn same_document(a: Option<XmlDocument>, b: Option<XmlDocument>) -> bool {
+    match (a, b) {
+        (Some(a), Some(b)) => Rc::ptr_eq(&a.document, &b.document),
+        _ => false,
     }
 }
 
@@ -1599,12 +1609,12 @@ impl NodeMut for XmlAttr {
         new_child: XmlNode,
         ref_child: Option<&XmlNode>,
     ) -> error::Result<XmlNode> {
-        if self.owner_document() != new_child.owner_document() {
+        if !same_document(self.owner_document(), new_child.owner_document()) {
             return Err(error::DomException::WrongDocumentErr)?;
         }
 
         let value = if let Some(r) = ref_child {
-            if self.owner_document() != r.owner_document() {
+            if !same_document(self.owner_document(), r.owner_document()) {
                 return Err(error::DomException::WrongDocumentErr)?;
             }
 
@@ -1628,7 +1638,7 @@ impl NodeMut for XmlAttr {
     }
 
     fn remove_child(&self, old_child: &XmlNode) -> error::Result<XmlNode> {
-        if self.owner_document() != old_child.owner_document() {
+        if !same_document(self.owner_document(), old_child.owner_document()) {
             return Err(error::DomException::WrongDocumentErr)?;
         }
 
@@ -1777,7 +1787,7 @@ impl ElementMut for XmlElement {
     }
 
     fn set_attribute_node(&self, new_attr: XmlAttr) -> error::Result<Option<XmlAttr>> {
-        if self.owner_document() != new_attr.owner_document() {
+        if !same_document(self.owner_document(), new_attr.owner_document()) {
             return Err(error::DomException::WrongDocumentErr)?;
         }
 
@@ -1905,12 +1915,12 @@ impl NodeMut for XmlElement {
         new_child: XmlNode,
         ref_child: Option<&XmlNode>,
     ) -> error::Result<XmlNode> {
-        if self.owner_document() != new_child.owner_document() {
+        if !same_document(self.owner_document(), new_child.owner_document()) {
             return Err(error::DomException::WrongDocumentErr)?;
         }
 
         let value = if let Some(r) = ref_child {
-            if self.owner_document() != r.owner_document() {
+            if !same_document(self.owner_document(), r.owner_document()) {
                 return Err(error::DomException::WrongDocumentErr)?;
             }
 
@@ -1934,7 +1944,7 @@ impl NodeMut for XmlElement {
     }
 
     fn remove_child(&self, old_child: &XmlNode) -> error::Result<XmlNode> {
-        if self.owner_document() != old_child.owner_document() {
+        if !same_document(self.owner_document(), old_child.owner_document()) {
             return Err(error::DomException::WrongDocumentErr)?;
         }
 
